@@ -113,6 +113,19 @@ def run_repeat(case):
     spec = make_spec(rng)
     if rng.random() < 0.4:
         spec["callback"] = gen.callback(rng, stop=False)
+    if rng.random() < 0.2:
+        # option names cobyqa does not know (e.g. those of other SciPy
+        # solvers): warned about, and the caller's dict stays as it is
+        for nm in rng.choice(["f_target", "initial_tr_radius",
+                              "final_tr_radius", "maxfun", "rhobeg", "tol"],
+                             int(rng.integers(1, 3)), replace=False):
+            spec["options"][str(nm)] = 0.5
+    if rng.random() < 0.15 and spec["obj"]["kind"] != "none":
+        # debug mode, and a user function that fails with its own exception
+        # at some evaluation: whatever the call leaves behind is judged
+        spec["options"]["debug"] = True
+        spec["faults"] = [{"target": "obj", "val": "raise",
+                           "when": {"idx": [int(rng.integers(0, 12))]}}]
     viols = []
     counts = {}
     # (c) module state around the first run
